@@ -69,6 +69,20 @@ Proof. change 18446744073709551615 with (N.ones 64). apply N.land_ones. Qed.
 Ltac norm_arith :=
   unfold add64, sub64, mul64, sub32, shl64, w16, w32, w64, mask16, mask32, mask64 in *;
   rewrite ?land_1, ?land_3, ?land_7, ?land_15, ?land_m16, ?land_m32, ?land_m64 in *.
+Ltac norm_arith_goal :=
+  unfold add64, sub64, mul64, sub32, shl64, w16, w32, w64, mask16, mask32, mask64;
+  rewrite ?land_1, ?land_3, ?land_7, ?land_15, ?land_m16, ?land_m32, ?land_m64.
+
+(* the PON payload-length indication: a 16-bit quantity; abstract it (lia needs only its range) *)
+Ltac abstract_pli :=
+  try match goal with
+  | |- context [N.shiftr ?x ?k mod 65536] => abs_pli x k
+  | _ : context [N.shiftr ?x ?k mod 65536] |- _ => abs_pli x k
+  end
+with abs_pli x k :=
+  let p := fresh "pli" in let Hp := fresh "Hpli" in
+  assert (Hp : N.shiftr x k mod 65536 < 65536) by (apply N.mod_lt; discriminate);
+  set (p := N.shiftr x k mod 65536) in *; clearbody p.
 
 (* ------------------------------------------------------------------------------------------ *)
 (* well-formedness as propositions                                                             *)
@@ -121,17 +135,33 @@ Ltac widths_in W :=
 (* the generic tactics                                                                         *)
 (* ------------------------------------------------------------------------------------------ *)
 (* walk the C image: one condition at a time, outermost first *)
-Ltac walk :=
-  repeat lazymatch goal with
-  | |- agree (if ?c then _ else _) _ _ => let H := fresh "C" in destruct c eqn:H
-  | |- agree (oseq (if ?c then _ else _) _) _ _ => let H := fresh "C" in destruct c eqn:H
-  | |- agree (oseq (oseq ?a ?b) ?c) _ _ => change (oseq (oseq a b) c) with (oseq a (oseq b c))
-  | |- agree (oseq (Some _) _) _ _ => unfold oseq at 1
-  | |- agree (oseq None _) _ _ => unfold oseq at 1
-  end.
-
 Lemma oseq_assoc a b c : oseq (oseq a b) c = oseq a (oseq b c).
 Proof. destruct a; reflexivity. Qed.
+
+(* a condition that does not mention the job is a closed boolean: compute it instead of splitting *)
+Ltac split_cond c :=
+  lazymatch c with
+  | context [jv_enc_keys] => let H := fresh "C" in destruct c eqn:H
+  | context [mk_job_view] => let H := fresh "C" in destruct c eqn:H
+  | _ => let v := eval vm_compute in c in
+         lazymatch v with
+         | true => change c with true; cbv iota
+         | false => change c with false; cbv iota
+         | _ => let H := fresh "C" in destruct c eqn:H
+         end
+  end.
+Ltac walk :=
+  repeat lazymatch goal with
+  | |- agree (if ?c then _ else _) _ _ => split_cond c
+  | |- agree (oseq (if ?c then _ else _) _) _ _ => split_cond c
+  | |- agree (oseq (oseq _ _) _) _ _ => rewrite oseq_assoc
+  | |- agree (oseq (Some _) _) _ _ => unfold oseq at 1
+  | |- agree (oseq None _) _ _ => unfold oseq at 1
+  | |- agree (Some _) _ _ => fail
+  | |- agree None _ _ => fail
+  | |- agree (?f _ _ _ _ _) _ _ => cbv beta zeta delta [f]; norm_arith; gen_enums_unfold   (* a generated case-group body *)
+  end.
+
 
 (* catalogue vocabulary: everything that must be unfolded to see a rule as a boolean formula *)
 Ltac cat :=
@@ -143,7 +173,54 @@ Ltac cat :=
        r_cipher_len_min r_cipher_len r_cipher_len_mult r_pair_hash r_pair_cipher r_tag r_tag_len r_tag_len_between
        r_hash_len r_hash_src r_hash_src_if_len r_aad r_cmac_keys] in *.
 
-Ltac arith := gen_enums_unfold; unfold MB_MAX_LEN16 in *; lia.
+(* Relevance filter: lia's cost is exponential in the number of disjunctive hypotheses, so before
+   each call every boolean/width hypothesis that shares no job field with the goal is cleared. *)
+Ltac shares_field T G :=
+  first
+  [ lazymatch T with context [jv_enc_keys _] => lazymatch G with context [jv_enc_keys _] => idtac end end
+  | lazymatch T with context [jv_dec_keys _] => lazymatch G with context [jv_dec_keys _] => idtac end end
+  | lazymatch T with context [jv_key_len_in_bytes _] => lazymatch G with context [jv_key_len_in_bytes _] => idtac end end
+  | lazymatch T with context [jv_src _] => lazymatch G with context [jv_src _] => idtac end end
+  | lazymatch T with context [jv_dst _] => lazymatch G with context [jv_dst _] => idtac end end
+  | lazymatch T with context [jv_cipher_start_src_offset _] => lazymatch G with context [jv_cipher_start_src_offset _] => idtac end end
+  | lazymatch T with context [jv_msg_len_to_cipher _] => lazymatch G with context [jv_msg_len_to_cipher _] => idtac end end
+  | lazymatch T with context [jv_hash_start_src_offset _] => lazymatch G with context [jv_hash_start_src_offset _] => idtac end end
+  | lazymatch T with context [jv_msg_len_to_hash _] => lazymatch G with context [jv_msg_len_to_hash _] => idtac end end
+  | lazymatch T with context [jv_iv_len_in_bytes _] => lazymatch G with context [jv_iv_len_in_bytes _] => idtac end end
+  | lazymatch T with context [jv_iv _] => lazymatch G with context [jv_iv _] => idtac end end
+  | lazymatch T with context [jv_auth_tag_output_len _] => lazymatch G with context [jv_auth_tag_output_len _] => idtac end end
+  | lazymatch T with context [jv_auth_tag_output _] => lazymatch G with context [jv_auth_tag_output _] => idtac end end
+  | lazymatch T with context [jv_u0 _] => lazymatch G with context [jv_u0 _] => idtac end end
+  | lazymatch T with context [jv_u1 _] => lazymatch G with context [jv_u1 _] => idtac end end
+  | lazymatch T with context [jv_u2 _] => lazymatch G with context [jv_u2 _] => idtac end end
+  | lazymatch T with context [jv_cipher_mode _] => lazymatch G with context [jv_cipher_mode _] => idtac end end
+  | lazymatch T with context [jv_cipher_direction _] => lazymatch G with context [jv_cipher_direction _] => idtac end end
+  | lazymatch T with context [jv_hash_alg _] => lazymatch G with context [jv_hash_alg _] => idtac end end
+  | lazymatch T with context [jv_chain_order _] => lazymatch G with context [jv_chain_order _] => idtac end end
+  | lazymatch T with context [jv_cipher_func _] => lazymatch G with context [jv_cipher_func _] => idtac end end
+  | lazymatch T with context [jv_hash_func _] => lazymatch G with context [jv_hash_func _] => idtac end end
+  | lazymatch T with context [jv_sgl_state _] => lazymatch G with context [jv_sgl_state _] => idtac end end
+  | lazymatch T with context [jv_next_iv _] => lazymatch G with context [jv_next_iv _] => idtac end end
+  | lazymatch T with context [jv_enc_ks0 _] => lazymatch G with context [jv_enc_ks0 _] => idtac end end
+  | lazymatch T with context [jv_enc_ks1 _] => lazymatch G with context [jv_enc_ks1 _] => idtac end end
+  | lazymatch T with context [jv_enc_ks2 _] => lazymatch G with context [jv_enc_ks2 _] => idtac end end
+  | lazymatch T with context [jv_dec_ks0 _] => lazymatch G with context [jv_dec_ks0 _] => idtac end end
+  | lazymatch T with context [jv_dec_ks1 _] => lazymatch G with context [jv_dec_ks1 _] => idtac end end
+  | lazymatch T with context [jv_dec_ks2 _] => lazymatch G with context [jv_dec_ks2 _] => idtac end end
+  | lazymatch T with context [jv_mem_xgem_hdr _] => lazymatch G with context [jv_mem_xgem_hdr _] => idtac end end
+  | lazymatch T with context [jv_sgl_segs _] => lazymatch G with context [jv_sgl_segs _] => idtac end end ].
+
+Ltac relevant_only :=
+  repeat match goal with
+  | H : ?T |- ?G =>
+      lazymatch T with
+      | (_ = true) => idtac | (_ = false) => idtac | (_ < _) => idtac
+      | (_ \/ _) => idtac
+      end;
+      tryif shares_field T G then fail else clear H
+  end.
+
+Ltac arith := unfold pon_pli, MB_MAX_LEN16; norm_arith_goal; gen_enums_unfold_goal; relevant_only; abstract_pli; lia.
 
 Ltac pick_rule :=
   first [ apply viol_here; [ reflexivity | cat; arith ]
@@ -153,7 +230,7 @@ Ltac all_ok :=
 
 (* expose a rule list as an explicit cons list *)
 Ltac open_rules :=
-  cbn [app sgl_rules
+  cbv beta delta [
        rules_CBC rules_CBCS_1_9 rules_ECB rules_CNTR rules_CNTR_BITLEN rules_NULL rules_DOCSIS_SEC_BPI rules_GCM
        rules_GCM_SGL rules_SM4_GCM rules_CUSTOM rules_DES rules_DOCSIS_DES rules_DES3 rules_CCM rules_PON
        rules_ZUC_EEA3 rules_SNOW3G_UEA2 rules_KASUMI_UEA1 rules_CHACHA20 rules_CHACHA20_POLY1305
@@ -162,35 +239,273 @@ Ltac open_rules :=
        rules_GHASH rules_AUTH_CUSTOM rules_AES_CCM rules_CMAC rules_CMAC_BITLEN rules_SHA rules_PON_CRC_BIP
        rules_ZUC_EIA3 rules_ZUC256_EIA3 rules_DOCSIS_CRC32 rules_SNOW3G_UIA2 rules_KASUMI_UIA1 rules_POLY1305
        rules_CHACHA20_POLY1305_HASH rules_CHACHA20_POLY1305_SGL_HASH rules_SNOW_V_AEAD_HASH rules_SM3 rules_HMAC_SM3
-       rules_SM4_GCM_HASH].
+       rules_SM4_GCM_HASH];
+  cbn [app sgl_rules].
 
 Ltac open_outside H :=
   unfold outside_known_discrepancies, disc_D1_chacha_pairing, disc_D2_key_len_truncated, disc_D4_cbcs_key_len,
-         disc_D6_sm4_key_len, disc_D8_docsis_offset_wraps in H.
+         disc_D6_sm4_key_len, disc_D8_docsis_offset_wraps in H;
+  repeat match type of H with (_ && _ = true) => apply andb_true_iff in H; destruct H as [H ?] end.
 
 Ltac leaf W :=
   unfold agree; open_rules;
   lazymatch goal with
   | |- violated_with _ _ _ = true => widths_in W; pick_rule
-  | |- _ -> rules_ok _ _ = true => let Ho := fresh "Hout" in intros Ho; open_outside Ho; widths_in W; all_ok
+  | |- _ -> rules_ok _ _ = true => let Ho := fresh "Hout" in intros Ho; open_outside Ho; gen_enums_unfold; widths_in W; all_ok
   end.
 
-(* a cipher family: [body] is the generated case-group body *)
-Ltac family body :=
-  let W := fresh "W" in
-  intros Hwf Hdir Hcm; pose proof (wf_widths _ Hwf) as W;
-  try rewrite Hcm; cbv beta zeta delta [body]; norm_arith; gen_enums_unfold;
-  walk; leaf W.
-
+(* ------------------------------------------------------------------------------------------ *)
+(* cipher-mode families                                                                        *)
+(* ------------------------------------------------------------------------------------------ *)
 Definition dir_ok (j : job_view) : Prop :=
   jv_cipher_direction j = IMB_DIR_ENCRYPT \/ jv_cipher_direction j = IMB_DIR_DECRYPT \/ jv_cipher_mode j = IMB_CIPHER_NULL.
 
-Notation cargs j := (jv_hash_alg j) (only parsing).
+(* the cipher switch of is_job_invalid with the actual arguments of the call sites *)
+Definition csw (j : job_view) : option N :=
+  is_job_invalid_sw1 j (jv_cipher_mode j) (jv_hash_alg j) (jv_cipher_direction j) (w32 (jv_key_len_in_bytes j)).
+Definition hsw (j : job_view) : option N :=
+  is_job_invalid_sw2 j (jv_cipher_mode j) (jv_hash_alg j) (jv_cipher_direction j) (w32 (jv_key_len_in_bytes j)).
 
-Lemma fam_CBC j : well_formed j = true -> dir_ok j -> jv_cipher_mode j = IMB_CIPHER_CBC ->
-  agree (is_job_invalid_sw1_IMB_CIPHER_CBC j (jv_cipher_mode j) (jv_hash_alg j) (jv_cipher_direction j) (w32 (jv_key_len_in_bytes j))) rules_CBC j.
-Proof. Time family is_job_invalid_sw1_IMB_CIPHER_CBC. Time Qed.
+Ltac cfamily :=
+  let W := fresh "W" in
+  intros Hwf Hdir Hcm; pose proof (wf_widths _ Hwf) as W; unfold dir_ok in Hdir;
+  unfold csw; rewrite ?Hcm; cbv beta zeta delta [is_job_invalid_sw1]; norm_arith; gen_enums_unfold;
+  walk; leaf W.
 
-Lemma fam_CBCS j : well_formed j = true -> dir_ok j -> jv_cipher_mode j = IMB_CIPHER_CBCS_1_9 ->
-  agree (is_job_invalid_sw1_IMB_CIPHER_CBC j (jv_cipher_mode j) (jv_hash_alg j) (jv_cipher_direction j) (w32 (jv_key_len_in_bytes j))) rules_CBCS_1_9 j.
-Proof. Time family is_job_invalid_sw1_IMB_CIPHER_CBC. Time Qed.
+Lemma cfam_CBC j : well_formed j = true -> dir_ok j -> jv_cipher_mode j = IMB_CIPHER_CBC -> agree (csw j) rules_CBC j.
+Proof. Time cfamily. Qed.
+
+Lemma cfam_CBCS_1_9 j : well_formed j = true -> dir_ok j -> jv_cipher_mode j = IMB_CIPHER_CBCS_1_9 -> agree (csw j) rules_CBCS_1_9 j.
+Proof. Time cfamily. Qed.
+
+Lemma cfam_ECB j : well_formed j = true -> dir_ok j -> jv_cipher_mode j = IMB_CIPHER_ECB -> agree (csw j) rules_ECB j.
+Proof. Time cfamily. Qed.
+
+Lemma cfam_CNTR j : well_formed j = true -> dir_ok j -> jv_cipher_mode j = IMB_CIPHER_CNTR -> agree (csw j) rules_CNTR j.
+Proof. Time cfamily. Qed.
+
+Lemma cfam_CNTR_BITLEN j : well_formed j = true -> dir_ok j -> jv_cipher_mode j = IMB_CIPHER_CNTR_BITLEN -> agree (csw j) rules_CNTR_BITLEN j.
+Proof. Time cfamily. Qed.
+
+Lemma cfam_NULL j : well_formed j = true -> dir_ok j -> jv_cipher_mode j = IMB_CIPHER_NULL -> agree (csw j) rules_NULL j.
+Proof. Time cfamily. Qed.
+
+Lemma cfam_DOCSIS_SEC_BPI j : well_formed j = true -> dir_ok j -> jv_cipher_mode j = IMB_CIPHER_DOCSIS_SEC_BPI -> agree (csw j) rules_DOCSIS_SEC_BPI j.
+Proof. Time cfamily. Qed.
+
+Lemma cfam_GCM j : well_formed j = true -> dir_ok j -> jv_cipher_mode j = IMB_CIPHER_GCM -> agree (csw j) rules_GCM j.
+Proof. Time cfamily. Qed.
+
+Lemma cfam_SM4_GCM j : well_formed j = true -> dir_ok j -> jv_cipher_mode j = IMB_CIPHER_SM4_GCM -> agree (csw j) rules_SM4_GCM j.
+Proof. Time cfamily. Qed.
+
+Lemma cfam_CUSTOM j : well_formed j = true -> dir_ok j -> jv_cipher_mode j = IMB_CIPHER_CUSTOM -> agree (csw j) rules_CUSTOM j.
+Proof. Time cfamily. Qed.
+
+Lemma cfam_DES j : well_formed j = true -> dir_ok j -> jv_cipher_mode j = IMB_CIPHER_DES -> agree (csw j) rules_DES j.
+Proof. Time cfamily. Qed.
+
+Lemma cfam_DOCSIS_DES j : well_formed j = true -> dir_ok j -> jv_cipher_mode j = IMB_CIPHER_DOCSIS_DES -> agree (csw j) rules_DOCSIS_DES j.
+Proof. Time cfamily. Qed.
+
+Lemma cfam_CCM j : well_formed j = true -> dir_ok j -> jv_cipher_mode j = IMB_CIPHER_CCM -> agree (csw j) rules_CCM j.
+Proof. Time cfamily. Qed.
+
+Lemma cfam_DES3 j : well_formed j = true -> dir_ok j -> jv_cipher_mode j = IMB_CIPHER_DES3 -> agree (csw j) rules_DES3 j.
+Proof. Time cfamily. Qed.
+
+Lemma cfam_PON j : well_formed j = true -> dir_ok j -> jv_cipher_mode j = IMB_CIPHER_PON_AES_CNTR -> agree (csw j) rules_PON j.
+Proof. Time cfamily. Qed.
+
+(* ZUC: the IV rule depends on the key length the checker sees, i.e. on the TRUNCATED value: the
+   errno is only guaranteed to name a violated rule when the 64-bit key length fits 32 bits (D2) *)
+Lemma cfam_ZUC_EEA3 j : disc_D2_key_len_truncated j = false ->
+  well_formed j = true -> dir_ok j -> jv_cipher_mode j = IMB_CIPHER_ZUC_EEA3 -> agree (csw j) rules_ZUC_EEA3 j.
+Proof. intros HD2; unfold disc_D2_key_len_truncated in HD2. Time cfamily. Qed.
+
+Lemma cfam_SNOW3G_UEA2 j : well_formed j = true -> dir_ok j -> jv_cipher_mode j = IMB_CIPHER_SNOW3G_UEA2_BITLEN -> agree (csw j) rules_SNOW3G_UEA2 j.
+Proof. Time cfamily. Qed.
+
+Lemma cfam_KASUMI_UEA1 j : well_formed j = true -> dir_ok j -> jv_cipher_mode j = IMB_CIPHER_KASUMI_UEA1_BITLEN -> agree (csw j) rules_KASUMI_UEA1 j.
+Proof. Time cfamily. Qed.
+
+Lemma cfam_CHACHA20 j : well_formed j = true -> dir_ok j -> jv_cipher_mode j = IMB_CIPHER_CHACHA20 -> agree (csw j) rules_CHACHA20 j.
+Proof. Time cfamily. Qed.
+
+Lemma cfam_CHACHA20_POLY1305 j : well_formed j = true -> dir_ok j -> jv_cipher_mode j = IMB_CIPHER_CHACHA20_POLY1305 -> agree (csw j) rules_CHACHA20_POLY1305 j.
+Proof. Time cfamily. Qed.
+
+Lemma cfam_SNOW_V j : well_formed j = true -> dir_ok j -> jv_cipher_mode j = IMB_CIPHER_SNOW_V -> agree (csw j) rules_SNOW_V j.
+Proof. Time cfamily. Qed.
+
+Lemma cfam_SNOW_V_AEAD j : well_formed j = true -> dir_ok j -> jv_cipher_mode j = IMB_CIPHER_SNOW_V_AEAD -> agree (csw j) rules_SNOW_V_AEAD j.
+Proof. Time cfamily. Qed.
+
+Lemma cfam_SM4_ECB j : well_formed j = true -> dir_ok j -> jv_cipher_mode j = IMB_CIPHER_SM4_ECB -> agree (csw j) rules_SM4_ECB j.
+Proof. Time cfamily. Qed.
+
+Lemma cfam_SM4_CBC j : well_formed j = true -> dir_ok j -> jv_cipher_mode j = IMB_CIPHER_SM4_CBC -> agree (csw j) rules_SM4_CBC j.
+Proof. Time cfamily. Qed.
+
+Lemma cfam_SM4_CNTR j : well_formed j = true -> dir_ok j -> jv_cipher_mode j = IMB_CIPHER_SM4_CNTR -> agree (csw j) rules_SM4_CNTR j.
+Proof. Time cfamily. Qed.
+
+Lemma cfam_CFB j : well_formed j = true -> dir_ok j -> jv_cipher_mode j = IMB_CIPHER_CFB -> agree (csw j) rules_CFB j.
+Proof. Time cfamily. Qed.
+
+(* ------------------------------------------------------------------------------------------ *)
+(* hash-algorithm families                                                                     *)
+(* ------------------------------------------------------------------------------------------ *)
+(* what is known when the hash switch runs: the cipher switch fell through *)
+Definition cipher_passed (j : job_view) : Prop :=
+  outside_known_discrepancies j = true -> rules_ok (cipher_rules (jv_cipher_mode j)) j = true.
+
+Ltac hfamily :=
+  let W := fresh "W" in
+  intros Hwf Hc Hha; pose proof (wf_widths _ Hwf) as W;
+  unfold hsw; rewrite ?Hha; cbv beta zeta delta [is_job_invalid_sw2]; norm_arith; gen_enums_unfold;
+  walk; leaf W.
+
+Lemma hfam_HMAC_SHA_1 j : well_formed j = true -> cipher_passed j -> jv_hash_alg j = IMB_AUTH_HMAC_SHA_1 -> agree (hsw j) (rules_HMAC 12 20) j.
+Proof. Time hfamily. Qed.
+
+Lemma hfam_HMAC_SHA_224 j : well_formed j = true -> cipher_passed j -> jv_hash_alg j = IMB_AUTH_HMAC_SHA_224 -> agree (hsw j) (rules_HMAC 14 28) j.
+Proof. Time hfamily. Qed.
+
+Lemma hfam_HMAC_SHA_256 j : well_formed j = true -> cipher_passed j -> jv_hash_alg j = IMB_AUTH_HMAC_SHA_256 -> agree (hsw j) (rules_HMAC 16 32) j.
+Proof. Time hfamily. Qed.
+
+Lemma hfam_HMAC_SHA_384 j : well_formed j = true -> cipher_passed j -> jv_hash_alg j = IMB_AUTH_HMAC_SHA_384 -> agree (hsw j) (rules_HMAC 24 48) j.
+Proof. Time hfamily. Qed.
+
+Lemma hfam_HMAC_SHA_512 j : well_formed j = true -> cipher_passed j -> jv_hash_alg j = IMB_AUTH_HMAC_SHA_512 -> agree (hsw j) (rules_HMAC 32 64) j.
+Proof. Time hfamily. Qed.
+
+Lemma hfam_AES_XCBC j : well_formed j = true -> cipher_passed j -> jv_hash_alg j = IMB_AUTH_AES_XCBC -> agree (hsw j) (rules_XCBC) j.
+Proof. Time hfamily. Qed.
+
+Lemma hfam_MD5 j : well_formed j = true -> cipher_passed j -> jv_hash_alg j = IMB_AUTH_MD5 -> agree (hsw j) (rules_HMAC 12 16) j.
+Proof. Time hfamily. Qed.
+
+Lemma hfam_NULL j : well_formed j = true -> cipher_passed j -> jv_hash_alg j = IMB_AUTH_NULL -> agree (hsw j) (rules_AUTH_NULL) j.
+Proof. Time hfamily. Qed.
+
+Lemma hfam_AES_GMAC j : well_formed j = true -> cipher_passed j -> jv_hash_alg j = IMB_AUTH_AES_GMAC -> agree (hsw j) (rules_AES_GMAC) j.
+Proof. Time hfamily. Qed.
+
+Lemma hfam_CUSTOM j : well_formed j = true -> cipher_passed j -> jv_hash_alg j = IMB_AUTH_CUSTOM -> agree (hsw j) (rules_AUTH_CUSTOM) j.
+Proof. Time hfamily. Qed.
+
+Lemma hfam_AES_CCM j : well_formed j = true -> cipher_passed j -> jv_hash_alg j = IMB_AUTH_AES_CCM -> agree (hsw j) (rules_AES_CCM) j.
+Proof. Time hfamily. Qed.
+
+Lemma hfam_AES_CMAC j : well_formed j = true -> cipher_passed j -> jv_hash_alg j = IMB_AUTH_AES_CMAC -> agree (hsw j) (rules_CMAC) j.
+Proof. Time hfamily. Qed.
+
+Lemma hfam_SHA_1 j : well_formed j = true -> cipher_passed j -> jv_hash_alg j = IMB_AUTH_SHA_1 -> agree (hsw j) (rules_SHA 20) j.
+Proof. Time hfamily. Qed.
+
+Lemma hfam_SHA_224 j : well_formed j = true -> cipher_passed j -> jv_hash_alg j = IMB_AUTH_SHA_224 -> agree (hsw j) (rules_SHA 28) j.
+Proof. Time hfamily. Qed.
+
+Lemma hfam_SHA_256 j : well_formed j = true -> cipher_passed j -> jv_hash_alg j = IMB_AUTH_SHA_256 -> agree (hsw j) (rules_SHA 32) j.
+Proof. Time hfamily. Qed.
+
+Lemma hfam_SHA_384 j : well_formed j = true -> cipher_passed j -> jv_hash_alg j = IMB_AUTH_SHA_384 -> agree (hsw j) (rules_SHA 48) j.
+Proof. Time hfamily. Qed.
+
+Lemma hfam_SHA_512 j : well_formed j = true -> cipher_passed j -> jv_hash_alg j = IMB_AUTH_SHA_512 -> agree (hsw j) (rules_SHA 64) j.
+Proof. Time hfamily. Qed.
+
+Lemma hfam_AES_CMAC_BITLEN j : well_formed j = true -> cipher_passed j -> jv_hash_alg j = IMB_AUTH_AES_CMAC_BITLEN -> agree (hsw j) (rules_CMAC_BITLEN) j.
+Proof. Time hfamily. Qed.
+
+Lemma hfam_PON_CRC_BIP j : well_formed j = true -> cipher_passed j -> jv_hash_alg j = IMB_AUTH_PON_CRC_BIP -> agree (hsw j) (rules_PON_CRC_BIP) j.
+Proof. Time hfamily. Qed.
+
+Lemma hfam_ZUC_EIA3_BITLEN j : well_formed j = true -> cipher_passed j -> jv_hash_alg j = IMB_AUTH_ZUC_EIA3_BITLEN -> agree (hsw j) (rules_ZUC_EIA3) j.
+Proof. Time hfamily. Qed.
+
+Lemma hfam_SNOW3G_UIA2_BITLEN j : well_formed j = true -> cipher_passed j -> jv_hash_alg j = IMB_AUTH_SNOW3G_UIA2_BITLEN -> agree (hsw j) (rules_SNOW3G_UIA2) j.
+Proof. Time hfamily. Qed.
+
+Lemma hfam_KASUMI_UIA1 j : well_formed j = true -> cipher_passed j -> jv_hash_alg j = IMB_AUTH_KASUMI_UIA1 -> agree (hsw j) (rules_KASUMI_UIA1) j.
+Proof. Time hfamily. Qed.
+
+Lemma hfam_AES_GMAC_128 j : well_formed j = true -> cipher_passed j -> jv_hash_alg j = IMB_AUTH_AES_GMAC_128 -> agree (hsw j) (rules_GMAC_STANDALONE) j.
+Proof. Time hfamily. Qed.
+
+Lemma hfam_AES_GMAC_192 j : well_formed j = true -> cipher_passed j -> jv_hash_alg j = IMB_AUTH_AES_GMAC_192 -> agree (hsw j) (rules_GMAC_STANDALONE) j.
+Proof. Time hfamily. Qed.
+
+Lemma hfam_AES_GMAC_256 j : well_formed j = true -> cipher_passed j -> jv_hash_alg j = IMB_AUTH_AES_GMAC_256 -> agree (hsw j) (rules_GMAC_STANDALONE) j.
+Proof. Time hfamily. Qed.
+
+Lemma hfam_AES_CMAC_256 j : well_formed j = true -> cipher_passed j -> jv_hash_alg j = IMB_AUTH_AES_CMAC_256 -> agree (hsw j) (rules_CMAC) j.
+Proof. Time hfamily. Qed.
+
+Lemma hfam_POLY1305 j : well_formed j = true -> cipher_passed j -> jv_hash_alg j = IMB_AUTH_POLY1305 -> agree (hsw j) (rules_POLY1305) j.
+Proof. Time hfamily. Qed.
+
+Lemma hfam_CHACHA20_POLY1305 j : well_formed j = true -> cipher_passed j -> jv_hash_alg j = IMB_AUTH_CHACHA20_POLY1305 -> agree (hsw j) (rules_CHACHA20_POLY1305_HASH) j.
+Proof. Time hfamily. Qed.
+
+Lemma hfam_CHACHA20_POLY1305_SGL j : well_formed j = true -> cipher_passed j -> jv_hash_alg j = IMB_AUTH_CHACHA20_POLY1305_SGL -> agree (hsw j) (rules_CHACHA20_POLY1305_SGL_HASH) j.
+Proof. Time hfamily. Qed.
+
+Lemma hfam_ZUC256_EIA3_BITLEN j : well_formed j = true -> cipher_passed j -> jv_hash_alg j = IMB_AUTH_ZUC256_EIA3_BITLEN -> agree (hsw j) (rules_ZUC256_EIA3) j.
+Proof. Time hfamily. Qed.
+
+Lemma hfam_SNOW_V_AEAD j : well_formed j = true -> cipher_passed j -> jv_hash_alg j = IMB_AUTH_SNOW_V_AEAD -> agree (hsw j) (rules_SNOW_V_AEAD_HASH) j.
+Proof. Time hfamily. Qed.
+
+Lemma hfam_GCM_SGL j : well_formed j = true -> cipher_passed j -> jv_hash_alg j = IMB_AUTH_GCM_SGL -> agree (hsw j) (rules_GCM_SGL_HASH) j.
+Proof. Time hfamily. Qed.
+
+Lemma hfam_CRC32_ETHERNET_FCS j : well_formed j = true -> cipher_passed j -> jv_hash_alg j = IMB_AUTH_CRC32_ETHERNET_FCS -> agree (hsw j) (rules_CRC) j.
+Proof. Time hfamily. Qed.
+
+Lemma hfam_CRC32_SCTP j : well_formed j = true -> cipher_passed j -> jv_hash_alg j = IMB_AUTH_CRC32_SCTP -> agree (hsw j) (rules_CRC) j.
+Proof. Time hfamily. Qed.
+
+Lemma hfam_CRC32_WIMAX_OFDMA_DATA j : well_formed j = true -> cipher_passed j -> jv_hash_alg j = IMB_AUTH_CRC32_WIMAX_OFDMA_DATA -> agree (hsw j) (rules_CRC) j.
+Proof. Time hfamily. Qed.
+
+Lemma hfam_CRC24_LTE_A j : well_formed j = true -> cipher_passed j -> jv_hash_alg j = IMB_AUTH_CRC24_LTE_A -> agree (hsw j) (rules_CRC) j.
+Proof. Time hfamily. Qed.
+
+Lemma hfam_CRC24_LTE_B j : well_formed j = true -> cipher_passed j -> jv_hash_alg j = IMB_AUTH_CRC24_LTE_B -> agree (hsw j) (rules_CRC) j.
+Proof. Time hfamily. Qed.
+
+Lemma hfam_CRC16_X25 j : well_formed j = true -> cipher_passed j -> jv_hash_alg j = IMB_AUTH_CRC16_X25 -> agree (hsw j) (rules_CRC) j.
+Proof. Time hfamily. Qed.
+
+Lemma hfam_CRC16_FP_DATA j : well_formed j = true -> cipher_passed j -> jv_hash_alg j = IMB_AUTH_CRC16_FP_DATA -> agree (hsw j) (rules_CRC) j.
+Proof. Time hfamily. Qed.
+
+Lemma hfam_CRC11_FP_HEADER j : well_formed j = true -> cipher_passed j -> jv_hash_alg j = IMB_AUTH_CRC11_FP_HEADER -> agree (hsw j) (rules_CRC) j.
+Proof. Time hfamily. Qed.
+
+Lemma hfam_CRC10_IUUP_DATA j : well_formed j = true -> cipher_passed j -> jv_hash_alg j = IMB_AUTH_CRC10_IUUP_DATA -> agree (hsw j) (rules_CRC) j.
+Proof. Time hfamily. Qed.
+
+Lemma hfam_CRC8_WIMAX_OFDMA_HCS j : well_formed j = true -> cipher_passed j -> jv_hash_alg j = IMB_AUTH_CRC8_WIMAX_OFDMA_HCS -> agree (hsw j) (rules_CRC) j.
+Proof. Time hfamily. Qed.
+
+Lemma hfam_CRC7_FP_HEADER j : well_formed j = true -> cipher_passed j -> jv_hash_alg j = IMB_AUTH_CRC7_FP_HEADER -> agree (hsw j) (rules_CRC) j.
+Proof. Time hfamily. Qed.
+
+Lemma hfam_CRC6_IUUP_HEADER j : well_formed j = true -> cipher_passed j -> jv_hash_alg j = IMB_AUTH_CRC6_IUUP_HEADER -> agree (hsw j) (rules_CRC) j.
+Proof. Time hfamily. Qed.
+
+Lemma hfam_GHASH j : well_formed j = true -> cipher_passed j -> jv_hash_alg j = IMB_AUTH_GHASH -> agree (hsw j) (rules_GHASH) j.
+Proof. Time hfamily. Qed.
+
+Lemma hfam_SM3 j : well_formed j = true -> cipher_passed j -> jv_hash_alg j = IMB_AUTH_SM3 -> agree (hsw j) (rules_SM3) j.
+Proof. Time hfamily. Qed.
+
+Lemma hfam_HMAC_SM3 j : well_formed j = true -> cipher_passed j -> jv_hash_alg j = IMB_AUTH_HMAC_SM3 -> agree (hsw j) (rules_HMAC_SM3) j.
+Proof. Time hfamily. Qed.
+
+Lemma hfam_SM4_GCM j : well_formed j = true -> cipher_passed j -> jv_hash_alg j = IMB_AUTH_SM4_GCM -> agree (hsw j) (rules_SM4_GCM_HASH) j.
+Proof. Time hfamily. Qed.
